@@ -292,6 +292,20 @@ namespace vf
              + jesc(msg) + "\",\"trace\":" + trace_json(60) + "}");
     }
 
+    // a violation after which the case can go on (used where a listed known finding would otherwise end every case early):
+    // emitted once per key and process, does not count towards the early-exit limit
+    inline void viol_continue(const char* prop, const std::string& key, const std::string& msg)
+    {
+        static std::set<std::string> seen;
+        count(("soft_violations:" + key).c_str());
+        if (!seen.insert(key).second)
+            return;
+        auto& c = cx();
+        emit(fmt("{\"t\":\"viol\",\"prop\":\"%s\",\"key\":\"%s\",\"case\":\"%s\",\"step\":%d,\"msg\":\"", prop, jesc(key).c_str(),
+                 jesc(case_id()).c_str(), c.step)
+             + jesc(msg) + "\",\"trace\":" + trace_json(60) + "}");
+    }
+
     inline void end_case(bool completed)
     {
         auto& c = cx();
